@@ -171,7 +171,8 @@ def run_sequence(ctx, part, case, by_construction=False):
                     ctx.fail(part, "C15.screen", case, want, {"after_op": i, "screen": t.lines()}, sig=sig)
                     return
                 if t.cursor() != wcur:
-                    ctx.fail(part, "C15.screen", case, list(wcur), {"after_op": i, "cursor": list(t.cursor())}, sig="cursor")
+                    ctx.fail(part, "C15.screen", case, list(wcur), {"after_op": i, "cursor": list(t.cursor())},
+                             sig="tab-approximation" if inexact_tab(ops[: i + 1], width) else "cursor")
                     return
                 for si, sec in enumerate(w.sections):
                     rows = sum(len(term.chunk(l.expandtabs(8), width)) for l in w.model[si])
